@@ -144,6 +144,17 @@ def attach (w : World) (k : Nat) : OOut Unit :=
   if k = 0 || decide (k ≥ w.obs.length) || (w.getObs k).isSome then .ub
   else .ok () (w.setObs k {})
 
+/-- an object-level mutator called with a null pointer where an object is required —
+`createNode(null)`, `createNode(origin, null, …)`, `associateNode/Edge(null, …)`, `set/addNodeIndex(null)`,
+`set/addEdgeIndex(null)`, `setEdgeLinking(…, null)` (refused since the repair: the null pointer would
+become a key of the object maps), and `link`, `unlink`, `deleteNode`, `dissociate*`, `setRoot` with a null
+node / edge (never known to the observer): raises, nothing changes.  Only the edge object of
+`link` / `createNode(origin, new, edge)` may be null (`Option Obj`) -/
+def nullRefused (w : World) (k : Nat) : OOut Unit :=
+  match w.getObs k with
+  | none => .ub
+  | some _ => .exc .bpp w
+
 /-- `setRoot(Nref)` (:706): `getGraph()->setRoot(getNodeGraphid(newRoot))` -/
 def setRootObj (w : World) (k : Nat) (a : Obj) : OOut Unit :=
   match w.getObs k with
@@ -191,6 +202,8 @@ inductive WOpX where
   | orientate
   /-- the public `notifyDeletedEdges(ids)` / `notifyDeletedNodes(ids)` called directly, with any ids -/
   | notify (ev : Event)
+  /-- an object-level mutator of observer `k` called with a null pointer where an object is required -/
+  | nullCall (k : Nat)
 deriving Repr
 
 namespace World
@@ -203,6 +216,7 @@ def stepX (w : World) : WOpX → World
   | .graphAssign d hist => w.graphAssign { (Graph.empty d).run hist with pending := [] }
   | .orientate => (w.graphOp w.g.orientate).2
   | .notify ev => w.notifyDirect ev
+  | .nullCall k => (w.nullRefused k).world w
 
 def runX (w : World) (ops : List WOpX) : World := ops.foldl stepX w
 end World
